@@ -4,7 +4,7 @@
 From Coq Require Import Lia ZArith ZifyN ZifyBool ZifyNat Sorted.
 From Grenad.gen Require Import Consts.
 From Grenad.model Require Import Base Block Reader Spec Iter.
-From Grenad.proofs Require Import BaseProofs BlockProofs BlockCursorProofs SpecProofs IterProofs ReaderRefine.
+From Grenad.proofs Require Import BaseProofs SortedFacts BlockProofs BlockCursorProofs SpecProofs IterProofs ReaderRefine.
 Ltac Zify.zify_post_hook ::= Z.div_mod_to_equations.
 
 Fixpoint takew {A} (f : A -> bool) (l : list A) : list A :=
@@ -181,17 +181,6 @@ Lemma SS_skipn {A} (R : A -> A -> Prop) l : StronglySorted R l -> forall n, Stro
 Proof.
   induction 1 as [|x r Hs IH Hf]; intro n; [destruct n; constructor|].
   destruct n as [|n]; [constructor; assumption|]. cbn [skipn]. apply IH.
-Qed.
-
-Lemma SS_app_inv {A} (R : A -> A -> Prop) l1 l2 : StronglySorted R (l1 ++ l2) ->
-  StronglySorted R l1 /\ StronglySorted R l2 /\ (forall x y, In x l1 -> In y l2 -> R x y).
-Proof.
-  induction l1 as [|a l1 IH]; cbn [app]; intro H.
-  - split; [constructor|]. split; [exact H|]. intros x y [].
-  - inversion H as [|? ? Hs Hf]; subst. destruct (IH Hs) as (A1 & A2 & A3).
-    rewrite Forall_forall in Hf.
-    split; [constructor; [exact A1|]; apply Forall_forall; intros x Hx; apply Hf; apply in_or_app; left; exact Hx|].
-    split; [exact A2|]. intros x y [<-|Hx] Hy; [apply Hf; apply in_or_app; right; exact Hy|apply A3; assumption].
 Qed.
 
 Lemma SS_strengthen {A} (R : A -> A -> Prop) (Q : A -> Prop) l : StronglySorted R l -> Forall Q l ->
